@@ -55,6 +55,8 @@ func (g *gen) unbox(st *State, box *Term, t types.Type) *Val {
 }
 
 func (g *gen) execBlock(b *ssa.BasicBlock, st *State, cur *loopInfo) {
+	g.curBlk = b
+	defer func() { g.curBlk = nil }()
 	for _, ins := range b.Instrs {
 		g.curInstr = ins
 		if st.reach.IsFalse() {
@@ -95,6 +97,9 @@ func (g *gen) execInstr(ins ssa.Instruction, st *State, b *ssa.BasicBlock) {
 		et := x.Type().(*types.Pointer).Elem()
 		r := g.alloc(st, "alloc."+x.Name())
 		g.zeroObject(st, r, et)
+		if g.dry == 0 && isPrivateCell(x) {
+			g.privCells = append(g.privCells, privCell{ref: r, t: et})
+		}
 		pv := &Val{T: x.Type(), L: []*Term{r}, Addr: &AddrInfo{Root: et, Known: true}}
 		if _, isArr := et.Underlying().(*types.Array); isArr {
 			pv.Addr = &AddrInfo{Root: et, Known: true} // array object; IndexAddr turns it into element addresses
@@ -212,6 +217,7 @@ func (g *gen) execInstr(ins ssa.Instruction, st *State, b *ssa.BasicBlock) {
 		g.set(x, g.next(st, x))
 	case *ssa.Send:
 		g.note("channel send: no effect modelled")
+		g.effect(st, "channel send", nil)
 	case *ssa.Select:
 		g.note("select: results havoced")
 		g.set(x, g.freshOf(x.Type(), x.Name()))
@@ -698,7 +704,7 @@ func mapLeafKey(mt *types.Map, path string) LeafKey {
 }
 
 func mapLeafKeyL(mt *types.Map, l Leaf) LeafKey {
-	k := mapLeafKeyL(mt, l)
+	k := mapLeafKey(mt, "val."+l.Path)
 	if _, ok := leafFactsReg[k]; !ok {
 		if f, ok := factsOf(l); ok {
 			leafFactsReg[k] = f
@@ -789,6 +795,9 @@ func (g *gen) mapUpdate(st *State, x *ssa.MapUpdate) {
 	if isInterface(mt.Elem()) && !isInterface(v.T) {
 		v = g.makeIface(st, v, mt.Elem())
 	}
+	if !g.localRefs[m.L[0].id] {
+		g.effect(st, "map update", Lt(g.entry.wm, m.L[0]))
+	}
 	k := mapLeafKey(mt, "has")
 	g.recordWrite2(k, SBool, ks)
 	st.heap = st.heap.With(k, st.heap.Get(k, SBool, ks).Store(m.L[0], kv.L[0], True))
@@ -859,7 +868,8 @@ func (g *gen) typeAssert(st *State, x *ssa.TypeAssert) *Val {
 	lbl := g.lbl(x.Pos(), "assert", x.String())
 	if isInterface(at) {
 		ok := And(Neq(box, Int(0)), App("implements."+sanitize(typeKey(at)), SBool, ifaceTag(box)))
-		if it, isI := at.Underlying().(*types.Interface); isI && it.NumMethods() == 0 {
+		if it, isI := at.Underlying().(*types.Interface); isI && (it.NumMethods() == 0 || types.Implements(x.X.Type(), it)) {
+			// asserting to an interface the static type already satisfies is a nil check
 			ok = Neq(box, Int(0))
 		}
 		res := scalar(at, Ite(ok, box, Int(0)))
